@@ -116,6 +116,9 @@ def replay_coexec(prop, path, engines_for):
     if payload.get("part") == "deleg":
         from . import deleg_part
         return deleg_part.replay(prop, payload, path)
+    if payload.get("part") == "sched":
+        from . import layer_b
+        return layer_b.replay_sched(prop, payload, path)
     if payload.get("part") == "tuples":
         from . import tuple_part as T
         from .layer_a import proj_default
